@@ -90,6 +90,33 @@ def _resolve_constant(*others: Any, constant: Optional[bool]) -> Optional[bool]:
     return True
 
 
+_PY_SCALARS = (bool, int, float)
+
+
+def _resolve_python_scalars(input_vars: Sequence[Any]) -> Tuple[Any, ...]:
+    """Under NumPy 2 (NEP 50) Python scalars are 'weakly typed': they adopt the
+    dtype of the arrays that they are combined with (``float32_array * 2.0`` is
+    float32). An operation's inputs are converted to tensors (0-d arrays) before
+    NumPy sees them, which would make a Python scalar a strongly-typed float64 /
+    int64 operand. Give each Python scalar the dtype NumPy would have resolved."""
+    dtypes = [
+        var.dtype
+        for var in input_vars
+        if isinstance(var, (Tensor, np.ndarray, np.generic))
+    ]
+    if not dtypes:
+        return tuple(input_vars)
+    out = []
+    for var in input_vars:
+        if type(var) in _PY_SCALARS:
+            try:
+                var = np.asarray(var, dtype=np.result_type(*dtypes, var))
+            except (OverflowError, TypeError, ValueError):
+                pass  # leave it to NumPy to accept or reject the operand
+        out.append(var)
+    return tuple(out)
+
+
 def asarray(a: ArrayLike, dtype: DTypeLike = None, order: str = None) -> np.ndarray:
     """Convert the input to an array.
 
@@ -1092,6 +1119,9 @@ class Tensor:
                 return out
 
         _uniques_bases_then_arrs = ()
+
+        if NP_IS_V2 and any(type(var) in _PY_SCALARS for var in input_vars):
+            input_vars = _resolve_python_scalars(input_vars)
 
         tensor_vars = tuple(
             cls(var, constant=True, copy=False) if not isinstance(var, Tensor) else var
